@@ -24,6 +24,8 @@ structure KeyOps (κ : Type) where
   peq : κ → κ → Bool
   incS : κ → Option κ
   incE : κ → Option κ
+  /-- `SqlValue::Null`, the least key of the map's order -/
+  null : κ
 
 /-- std's documented panic conditions of `BTreeMap::range((lo, hi))` -/
 def rangePanics {κ : Type} (cmp : κ → κ → Ordering) : Bnd κ → Bnd κ → Bool
@@ -41,7 +43,7 @@ inductive Plan (κ : Type) where
   | empty
   /-- `data.range((lo, hi))` -/
   | range (lo hi : Bnd κ)
-  deriving Repr
+  deriving Repr, DecidableEq
 
 /-- `is_invalid_btree_range` -/
 def invalidRange {κ : Type} (cmp : κ → κ → Ordering) (lo hi : Bnd κ) : Bool :=
@@ -70,10 +72,11 @@ def multiBounds {κ : Type} (o : KeyOps κ) (start end_ : Option κ) (incS incE 
       else .excl v
   (lo, hi)
 
-/-- bounds of the standard (single-column) branch -/
-def stdBounds {κ : Type} (start end_ : Option κ) (incS incE : Bool) : Bnd κ × Bnd κ :=
+/-- bounds of the standard (single-column) branch; with an open lower bound and an upper bound
+    the walk starts after the NULL key (repair 543a6998) -/
+def stdBounds {κ : Type} (o : KeyOps κ) (start end_ : Option κ) (incS incE : Bool) : Bnd κ × Bnd κ :=
   let lo := match start with
-    | none => Bnd.unb
+    | none => if end_.isSome then Bnd.excl o.null else Bnd.unb
     | some v => if incS then .incl v else .excl v
   let hi := match end_ with
     | none => Bnd.unb
@@ -98,7 +101,7 @@ def planOf {κ : Type} (o : KeyOps κ) (multi : Bool) (start end_ : Option κ) (
   | some p => p
   | none =>
     let b := if multi && (start.isSome || end_.isSome) then multiBounds o start end_ incS incE
-             else stdBounds start end_ incS incE
+             else stdBounds o start end_ incS incE
     if invalidRange o.cmp b.1 b.2 then .empty else .range b.1 b.2
 
 /-- the guard sequence before the repair: only "both excluded at the same key" was checked
@@ -108,7 +111,7 @@ def planOfBefore {κ : Type} (o : KeyOps κ) (multi : Bool) (start end_ : Option
   | some p => p
   | none =>
     let b := if multi && (start.isSome || end_.isSome) then multiBounds o start end_ incS incE
-             else stdBounds start end_ incS incE
+             else stdBounds o start end_ incS incE
     match b.1, b.2 with
     | .excl s, .excl e => if o.peq s e then .empty else .range b.1 b.2
     | _, _ => .range b.1 b.2
@@ -155,7 +158,7 @@ def Key.incS : Key → Option Key
   | .num t => if t = 0 then none else some (.num (t + 1))
   | _ => none
 
-def keyOps : KeyOps Key := ⟨Key.cmp, Key.pgt, Key.peq, Key.incS, Key.incE⟩
+def keyOps : KeyOps Key := ⟨Key.cmp, Key.pgt, Key.peq, Key.incS, Key.incE, .null⟩
 
 /-- `Ord for [SqlValue]`: lexicographic, shorter prefix first -/
 def cmpKeys : List Key → List Key → Ordering
@@ -192,6 +195,24 @@ def takeWhilePrefix (k : Key) : List (List Key × List Nat) → List Nat
     | [] => []
     | k0 :: _ => if Key.peq k0 k then ids ++ takeWhilePrefix k rest else []
 
+/-- the loop of the multi-column branch over the keys inside the bounds: the first column of every
+    key is compared with the requested bounds again (NULL keys skipped for an open lower bound, a
+    key equal to an exclusive start skipped, stop at the first key beyond the end) -/
+def multiWalk (start end_ : Option Key) (incS incE : Bool) : List (List Key × List Nat) → List Nat
+  | [] => []
+  | (ks, ids) :: rest =>
+    match ks with
+    | [] => multiWalk start end_ incS incE rest
+    | k0 :: _ =>
+      if start.isNone && Key.peq k0 .null then multiWalk start end_ incS incE rest
+      else if (match start with | some s => !incS && Key.peq k0 s | none => false) then
+        multiWalk start end_ incS incE rest
+      else
+        let stop : Bool := match end_ with
+          | some e => Key.cmp k0 e == .gt || (Key.cmp k0 e == .eq && !incE)
+          | none => false
+        if stop then [] else ids ++ multiWalk start end_ incS incE rest
+
 def scan (entries : List (List Key × List Nat)) (start end_ : Option Key) (incS incE : Bool) : ScanOut :=
   let multi := match entries with
     | (ks, _) :: _ => decide (ks.length > 1)
@@ -202,6 +223,9 @@ def scan (entries : List (List Key × List Nat)) (start end_ : Option Key) (incS
     .rows (takeWhilePrefix k (entries.filter (fun e => cmpKeys [k] e.1 != .gt)))
   | .range lo hi =>
     if rangePanics Key.cmp lo hi then .panic
-    else .rows ((entries.filter (fun e => inLo lo e.1 && inHi hi e.1)).flatMap (·.2))
+    else
+      let inRange := entries.filter (fun e => inLo lo e.1 && inHi hi e.1)
+      if multi && (start.isSome || end_.isSome) then .rows (multiWalk start end_ incS incE inRange)
+      else .rows (inRange.flatMap (·.2))
 
 end VibeProof.RangeGuard
